@@ -1,4 +1,5 @@
 import Bluebell.Convert
+import Bluebell.Lemmas.PegTerm
 /-!
 # C01 — conversion is total
 
@@ -68,6 +69,27 @@ theorem C01_eids_titles_total (x : Xml) (pfx : String) : ∃ y, titlesX (rewrite
 
 -- non-vacuity: an ordinary document converts
 example : errOf (convert testUris "" "PART 1 - Intro\n  SEC 1.\n    hello **world**\n" "act") = none := by
+  decide +kernel
+
+/-! ## The parser always answers: termination of the grammar that executes
+
+`wfG` is the decidable certificate check of `Peg/WF.lean`; the certificate (nullable rules and
+ranks) is recomputed from `akn.py` on every run and *checked* here by the kernel against the
+regenerated grammar with parser.py's override in place.  `peg_terminates` is generic (any grammar,
+any text).  A grammar edit that introduces left recursion (a `RecursionError` in `akn.py`) or a
+`*`/`+` whose body can match the empty string (an endless loop) makes the first theorem fail. -/
+
+theorem C01_grammar_certificate : wfG aknExec aknNullable aknRanks aknRankTop = true := by
+  decide +kernel
+
+/-- every rule of the grammar, on every text, from every offset: the interpreter answers -/
+theorem C01_parser_terminates (inp : Array Char) (root : String) (h : (aknExec.lookup root).isSome)
+    (p : Nat) (hp : p ≤ inp.size) :
+    ∃ n r, r.done ∧ ∀ m, n ≤ m → eval aknExec inp m (.ref root) p = r :=
+  peg_result_defined C01_grammar_certificate root h p hp
+
+theorem C01_roots_are_rules :
+    (sixRoots ++ ["debate", "hier_element", "attachments"]).all (fun r => (aknExec.lookup r).isSome) = true := by
   decide +kernel
 
 end Bluebell
